@@ -84,6 +84,9 @@ type Case struct {
 	NoCirc bool      `json:"nocirc,omitempty"` // -ssa only
 	NoSSA  bool      `json:"nossa,omitempty"`  // -circ only
 	Format string    `json:"format,omitempty"` // -format (default mpclc)
+	// Stale: the repeated run of the last program finds the (much longer)
+	// output files of an earlier compilation in its directory.
+	Stale bool `json:"stale,omitempty"`
 }
 
 func init() {
